@@ -27,8 +27,10 @@ REQUIRED_HOOKS = ["H-contains", "H-git-check-ignore", "H-iter"]
 EXTENSIONS = [".f90", ".F90", ".f", ".ftn", ".fpp", ".F", ".FOR", ".FTN", ".FPP", ".c", ".h", ".c++", ".cxx", ".cpp", ".cc",
               ".hpp", ".hxx", ".h++", ".hh", ".inc", ".inl", ".tcc", ".icc", ".ipp", ".cu", ".cuh", ".cl", ".s", ".S", ".asm"]
 NONSRC = [".txt", ".o", ".C", ".H", ".CPP", ".py", "", ".c.bak", ".cc~", ".for", ".f77", ".hPP", ".json", ".md"]
-DIRNAMES = ["src", "include", "third-party", "build", "a b", "x[1]", "d*r", "q?", "!bang", "#hash", "sub", "deep", "lib.c", "Src"]
-BASENAMES = ["main", "util", "a b", "x[1]", "st*r", "q?x", "!neg", "#h", "foo", "Foo", "bar", ".hidden", "a.b", "-dash", "e2"]
+DIRNAMES = ["src", "include", "third-party", "build", "a b", "x[1]", "d*r", "q?", "!bang", "#hash", "sub", "deep", "lib.c", "Src",
+            # names that mean something to shells, version control or path helpers but are ordinary directory names
+            ".git", ".svn", ".hg", "~", "~root", "$HOME", "CVS", "node_modules", "..."]
+BASENAMES = ["main", "util", "a b", "x[1]", "st*r", "q?x", "!neg", "#h", "foo", "Foo", "bar", ".hidden", "a.b", "-dash", "e2", "~", "$x", "%TEMP%"]
 
 
 def bounds(tier):
@@ -41,7 +43,7 @@ def required_cells(tier):
              "link:file-inside", "link:dir-inside", "link:outside", "link:dangling", "link:chain",
              "spell:absolute", "spell:relative-root", "spell:relative-other-cwd", "spell:dot", "spell:dotdot", "spell:via-link",
              "member:yes", "member:no-extension", "member:no-excluded", "member:no-outside", "member:no-directory",
-             "member:no-missing", "iter", "outside:sibling-with-root-prefix"]
+             "member:no-missing", "iter", "outside:sibling-with-root-prefix", "name:vcs-directory", "name:tilde-first"]
     return cells
 
 
@@ -231,6 +233,10 @@ def check_case(ctx, git, tree, patterns, feats, base, cls):
     for k in tree["link_kinds"]:
         cells.add({"file-inside": "link:file-inside", "dir-inside": "link:dir-inside", "outside": "link:outside",
                    "dangling": "link:dangling", "chain": "link:chain"}[k])
+    if any(set(f.split("/")[:-1]) & {".git", ".svn", ".hg", "CVS"} for f in tree["files"]):
+        cells.add("name:vcs-directory")
+    if any(f.startswith("~") for f in tree["files"]):
+        cells.add("name:tilde-first")
     case = {"tree": tree, "patterns": patterns}
     try:
         cb = CodeBase(root, exclude_patterns=list(patterns))
